@@ -47,8 +47,11 @@ def cases(chk):
     out.append((2, [0, 1], "nul-prefix-desc"))
     out.append((2, [0, 1], "nul-prefix-asc"))
     out.append((5, [2, 3], "nul-prefix-mid"))
+    # leaves that take spend arguments besides the signature (the --sig signature goes first, the user's items after it)
+    out.append((2, [0, 1], "with-args"))
+    out.append((4, [1, 2], "with-args"))
     out.append((3, [0, 1, 2], "equal-scripts"))
-    out.append((4, [0, 3], "long-scripts"))
+    out.append((4, [0, 1, 2, 3], "long-scripts"))
     out.append((2, [0, 1], "sorted-either-way"))
     return out
 
@@ -86,8 +89,16 @@ def run(chk):
             for j, sc in enumerate(found):
                 scripts[pos + j] = sc
                 leafsecs[pos + j] = [sk for sk in leafsecs if btc.xonly_pubkey(sk)[0] in sc][0]
+        if kind == "with-args":
+            # OP_SHA256 <h> OP_EQUALVERIFY <key> OP_CHECKSIG : witness = signature, preimage
+            for q_ in range(n):
+                pre = bytes([0x40 + q_]) * (3 + q_)
+                scripts[q_] = O("SHA256") + push(btc.sha256(pre)) + O("EQUALVERIFY") + push(btc.xonly_pubkey(leafsecs[q_])[0]) + O("CHECKSIG")
         if kind == "long-scripts":
-            scripts[0] = O("NOP") * 251 + b"\x51"; scripts[1] = O("NOP") * 252 + b"\x51"; scripts[3] = O("NOP") * 599 + b"\x51"
+            # signature-checking leaves of 252 / 253 / 521 / 600 bytes (so that tap's transaction is completed with --sig and run in btcdeb)
+            for q_, total in ((0, 252), (1, 253), (2, 521), (3, 600)):
+                tail = push(btc.xonly_pubkey(leafsecs[q_])[0]) + O("CHECKSIG")
+                scripts[q_] = O("NOP") * (total - len(tail)) + tail
         # address prefixes: the usual ones and others with the characters bech32 permits in a prefix (digits, punctuation)
         hrp = (["bcrt", "bc", "tb", "sb", "reg_test", "a^b", "tb2", "ltc-test", "x", "@[\\]_", "1a", "!~"] + ["bcrt"] * 8)[len(work) % 20]
         work.append((n, idxs, kind, ikey, sec_int, leafsecs, scripts, hrp))
@@ -116,6 +127,10 @@ def run(chk):
             txargs = ["--tx=" + tx.hex(), "--txin=" + funding.hex()]
             is_sig_leaf = idx != "key" and scripts[idx][-1] == OP["CHECKSIG"]
             spendargs = [] if idx == "key" else [str(idx)]
+            xargs = []
+            if kind == "with-args" and idx != "key":
+                xargs = [(bytes([0x40 + idx]) * (3 + idx)).hex()]
+                spendargs = [str(idx), "0x" + xargs[0]]
             # (b) spend mode without transactions: the address must not change
             if idx != "key":
                 r1 = run_tap(tap, base + spendargs)
@@ -123,7 +138,7 @@ def run(chk):
             # (c,d) with transactions, logging visible: reported signature hash + resulting transaction (placeholder signature)
             r2 = run_tap(tap, txargs + base + spendargs, ptys=True)
             mode = "key" if idx == "key" else "script"
-            evs.append(dict(common, mode=mode, idx=-1 if idx == "key" else idx, args=[], addr=r2["addr"], tx=r2["tx"], txin=funding.hex(), sighash=r2["sighash"],
+            evs.append(dict(common, mode=mode, idx=-1 if idx == "key" else idx, args=xargs, addr=r2["addr"], tx=r2["tx"], txin=funding.hex(), sighash=r2["sighash"],
                             sig="", code=r2["code"] if r2["tx"] else (r2["code"] or 1)))
             # (e) round trip: sign the REPORTED hash, give it back with --sig, debug the result
             if r2["sighash"] and (idx == "key" or is_sig_leaf):
@@ -145,7 +160,7 @@ def run(chk):
                 else:
                     sig = btc.schnorr_sign(leafsecs[idx], h)
                 r3 = run_tap(tap, ["--sig=" + sig.hex()] + txargs + base + spendargs)
-                evs.append(dict(common, mode=mode, idx=-1 if idx == "key" else idx, args=[], addr=r3["addr"], tx=r3["tx"], txin=funding.hex(), sighash="",
+                evs.append(dict(common, mode=mode, idx=-1 if idx == "key" else idx, args=xargs, addr=r3["addr"], tx=r3["tx"], txin=funding.hex(), sighash="",
                                 sig=sig.hex(), code=r3["code"] if r3["tx"] else (r3["code"] or 1)))
                 if r3["tx"]:
                     sess.append(SessionJob("rt:%d:%s:%s" % (n, idx, kind), b"", [], STANDARD, "BASE", cmds=["steps"], cmp=gen_spend.CMP_SPEND, auto=True,
